@@ -12,6 +12,40 @@ import (
 
 func ptrKey(p *Pointer) string { return fmt.Sprintf("%d%v", p.Obj.ID, p.Path) }
 
+// deepCopyJSON: decoding a JSON document yields fresh maps and slices each time (pointers are shared: the
+// harness uses them as identities of typed values).
+func (x *Exec) deepCopyJSON(v Value) Value {
+	switch v := v.(type) {
+	case *MapV:
+		if v == nil {
+			return v
+		}
+		x.nobj++
+		n := &MapV{ID: x.nobj}
+		for _, e := range v.Entries {
+			n.Entries = append(n.Entries, &MapEntry{K: e.K, V: x.deepCopyJSON(e.V), Present: e.Present})
+		}
+		return n
+	case *SliceV:
+		if v == nil || v.LenT != nil {
+			return v
+		}
+		var es []Value
+		for _, e := range x.sliceElems(v) {
+			es = append(es, x.deepCopyJSON(e))
+		}
+		return x.newSlice(es, "json-copy")
+	case *IfaceV:
+		if v == nil {
+			return v
+		}
+		return &IfaceV{T: v.T, V: x.deepCopyJSON(v.V)}
+	case *Agg:
+		return copyVal(v)
+	}
+	return v
+}
+
 func isEmptyIface(t types.Type) bool {
 	it, ok := t.Underlying().(*types.Interface)
 	return ok && it.NumMethods() == 0
@@ -1226,9 +1260,9 @@ func stdIntrinsic(name string, fn *ssa.Function) intrinsicFn {
 			}
 			switch {
 			case types.Identical(pt.Elem(), src.T):
-				x.store(p, src.V)
+				x.store(p, x.deepCopyJSON(src.V))
 			case isEmptyIface(pt.Elem()):
-				x.store(p, src)
+				x.store(p, &IfaceV{T: src.T, V: x.deepCopyJSON(src.V)})
 			default:
 				if sp, isPtr := src.T.(*types.Pointer); isPtr && types.Identical(pt.Elem(), sp.Elem()) && src.V.(*Pointer) != nil {
 					x.store(p, x.load(src.V.(*Pointer)))
